@@ -591,6 +591,11 @@ func (r *resolver) stmt(stmt syntax.Stmt) {
 			id := stmt.To[i]
 			if r.options.LoadBindsGlobally {
 				r.bind(id)
+			} else if prev, ok := r.globals[id.Name]; ok && r.env == r.file && !r.options.GlobalReassign {
+				// The file block and the module block do not overlap:
+				// a load may not bind the name of a global.
+				r.errorf(id.NamePos, "cannot reassign %s %s declared at %s", prev.Scope, id.Name, prev.First.NamePos)
+				r.bindLocal(id)
 			} else if r.bindLocal(id) && !r.options.GlobalReassign {
 				// "Global" in AllowGlobalReassign is a misnomer for "toplevel".
 				// Sadly we can't report the previous declaration
